@@ -429,4 +429,136 @@ Section Spec.
       split; exact R0.
     Qed.
   End Generic.
+
+  (** the same argument for an invariant indexed by the number of operations executed so far
+      (used for histories of bounded length) *)
+  Section GenericI.
+    Variable L : nat.
+    Variable Inv : nat -> table -> Prop.
+    Hypothesis H_mono : forall i t, Inv i t -> Inv (S i) t.
+    Variable Fun : table -> K -> option V.
+    Hypothesis H_list : forall i t shuf, Inv i t -> perm_oracle shuf -> represents (all K V shuf t) (Fun t).
+    Hypothesis H_size : forall i t, Inv i t -> size K V t = length (all K V (fun l => l) t).
+    Hypothesis H_put : forall i shuf t k v, i < L -> Inv i t -> perm_oracle shuf ->
+        exists t', put K V eqb hash maxlf shuf t k v = Ok t' /\ Inv (S i) t' /\ forall k', Fun t' k' = fupd (Fun t) k v k'.
+    Hypothesis H_get : forall i t k, Inv i t -> get K V eqb hash t k = Ok (Fun t k).
+    Hypothesis H_delete : forall i shuf t k, Inv i t -> perm_oracle shuf ->
+        exists t', delete K V eqb hash minlf maxlf shuf t k = Ok (t', Fun t k) /\ Inv i t' /\
+                   forall k', Fun t' k' = frem (Fun t) k k'.
+    Hypothesis H_delete_all : forall i t, Inv i t -> Inv i (delete_all K V t) /\ forall k, Fun (delete_all K V t) k = None.
+    Hypothesis H_equal : forall i s1 s2 t1 t2, Inv i t1 -> Inv i t2 ->
+        equal K V eqb eqv hash s1 s2 t1 t2
+        = equal_with K V eqv (all K V s1 t1) (all K V s2 t2) (get K V eqb hash t1) (get K V eqb hash t2).
+
+    Definition Rel1I (i : nat) (t : table) (s : smap) : Prop :=
+      Inv i t /\ NoDup (keys s) /\ forall k, Fun t k = s_get s k.
+    Definition RelI (i : nat) (t : table * table) (s : smap * smap) : Prop :=
+      Rel1I i (fst t) (fst s) /\ Rel1I i (snd t) (snd s).
+
+    Lemma Rel1I_mono : forall i t s, Rel1I i t s -> Rel1I (S i) t s.
+    Proof. intros i t s (A & B & C); split; auto. Qed.
+
+    Lemma RelI_mono : forall i t s, RelI i t s -> RelI (S i) t s.
+    Proof. intros i t s [A B]; split; now apply Rel1I_mono. Qed.
+
+    Lemma RelI_sel : forall i x t s, RelI i t s -> Rel1I i (sel x t) (sel x s).
+    Proof. intros i [] t s [A B]; simpl; auto. Qed.
+
+    Lemma RelI_setx : forall i x t s t' s', RelI i t s -> Rel1I i t' s' -> RelI i (setx x t t') (setx x s s').
+    Proof. intros i [] t s t' s' [A B] C; split; simpl; auto. Qed.
+
+    Lemma id_permI : perm_oracle (fun l => l).
+    Proof. intros l; apply Permutation_refl. Qed.
+
+    Lemma Rel1I_perm : forall i t s shuf, Rel1I i t s -> perm_oracle shuf -> Permutation (all K V shuf t) s.
+    Proof.
+      intros i t s shuf (I & ND & E) P. eapply represents_perm.
+      - apply (H_list i); eauto.
+      - eapply represents_ext; [apply represents_get; auto|]. intros k; now rewrite E.
+    Qed.
+
+    Lemma Rel1I_size : forall i t s, Rel1I i t s -> size K V t = length s.
+    Proof.
+      intros i t s R. rewrite (H_size i) by apply R. apply Permutation_length.
+      apply (Rel1I_perm i); auto using id_permI.
+    Qed.
+
+    Lemma stepI_refines : forall i orc t s o,
+        i < L -> RelI i t s -> (forall j, perm_oracle (orc j)) ->
+        exists t' w, step orc t o = Ok (t', w) /\ RelI (S i) t' (fst (s_step s o)) /\ out_match w (snd (s_step s o)).
+    Proof.
+      intros i orc t s o Hi R PO. pose proof (RelI_mono _ _ _ R) as RS.
+      destruct o as [x k v|x k|x k|x|x|x|x|x]; simpl.
+      - (* Put *)
+        pose proof (RelI_sel _ x _ _ R) as (I & ND & E).
+        destruct (H_put i (orc 0) (sel x t) k v Hi I (PO 0)) as (t' & Hp & I' & F').
+        rewrite Hp; simpl. do 2 eexists; split; [reflexivity|]. split; [|reflexivity].
+        apply RelI_setx; auto. split; [auto|]. split; [now apply NoDup_keys_s_put|].
+        intros k'. rewrite F', s_get_s_put. unfold fupd. now rewrite E.
+      - (* Get *)
+        pose proof (RelI_sel _ x _ _ R) as (I & ND & E).
+        rewrite (H_get i) by auto; simpl. do 2 eexists; split; [reflexivity|]. split; auto.
+        simpl. now rewrite E.
+      - (* Delete *)
+        pose proof (RelI_sel _ x _ _ R) as (I & ND & E).
+        destruct (H_delete i (orc 0) (sel x t) k I (PO 0)) as (t' & Hp & I' & F').
+        rewrite Hp; simpl. do 2 eexists; split; [reflexivity|]. split; [|simpl; now rewrite E].
+        apply RelI_setx; auto. split; [auto|]. split; [now apply NoDup_keys_s_rem|].
+        intros k'. rewrite F', s_get_s_rem. unfold frem. now rewrite E.
+      - (* DeleteAll *)
+        pose proof (RelI_sel _ x _ _ R) as (I & ND & E).
+        destruct (H_delete_all i _ I) as [I' F'].
+        do 2 eexists; split; [reflexivity|]. split; [|reflexivity].
+        apply RelI_setx; auto. split; [auto|]. split; [constructor|]. intros k. now rewrite F'.
+      - (* Size *)
+        do 2 eexists; split; [reflexivity|]. split; auto. simpl.
+        now rewrite (Rel1I_size _ _ _ (RelI_sel _ x _ _ R)).
+      - (* IsEmpty *)
+        do 2 eexists; split; [reflexivity|]. split; auto. simpl. unfold is_empty.
+        now rewrite (Rel1I_size _ _ _ (RelI_sel _ x _ _ R)).
+      - (* All *)
+        do 2 eexists; split; [reflexivity|]. split; auto. simpl.
+        apply (Rel1I_perm i); auto. now apply RelI_sel.
+      - (* Equal *)
+        pose proof (RelI_sel _ x _ _ R) as R1. pose proof (RelI_sel _ (negb x) _ _ R) as R2.
+        pose proof R1 as (I1 & ND1 & E1). pose proof R2 as (I2 & ND2 & E2).
+        rewrite (H_equal i) by auto. unfold equal_with.
+        rewrite (all_match_ok _ (Fun (sel (negb x) t))) by (intros; now apply (H_get i)). simpl.
+        assert (A1 : forallb (chk (Fun (sel (negb x) t))) (all K V (orc 0) (sel x t))
+                     = forallb (chk (s_get (sel (negb x) s))) (sel x s)).
+        { rewrite (forallb_perm _ _ _ _ (Rel1I_perm _ _ _ _ R1 (PO 0))).
+          apply forallb_ext'. intros kv. unfold chk. now rewrite E2. }
+        assert (A2 : forallb (chk (Fun (sel x t))) (all K V (orc 1) (sel (negb x) t))
+                     = forallb (chk (s_get (sel x s))) (sel (negb x) s)).
+        { rewrite (forallb_perm _ _ _ _ (Rel1I_perm _ _ _ _ R2 (PO 1))).
+          apply forallb_ext'. intros kv. unfold chk. now rewrite E1. }
+        rewrite A1. unfold s_equal.
+        destruct (forallb (chk (s_get (sel (negb x) s))) (sel x s)); simpl.
+        + rewrite (all_match_ok _ (Fun (sel x t))) by (intros; now apply (H_get i)). simpl.
+          rewrite A2. do 2 eexists; split; [reflexivity|]. split; [auto|reflexivity].
+        + do 2 eexists; split; [reflexivity|]. split; [auto|reflexivity].
+    Qed.
+
+    Lemma runI_from_refines : forall orc ops i t s,
+        RelI i t s -> (forall i j, perm_oracle (orc i j)) -> i + length ops <= L ->
+        outs_match (run_from orc i t ops) (s_run s ops).
+    Proof.
+      intros orc ops. induction ops as [|o r IH]; intros i t s R PO Hl; simpl; [constructor|].
+      simpl in Hl.
+      destruct (stepI_refines i (orc i) t s o ltac:(lia) R (PO i)) as (t' & w & Hs & R' & M).
+      rewrite Hs. destruct (s_step s o) as [s' w'] eqn:Es; simpl in *.
+      constructor; auto. apply IH; auto. lia.
+    Qed.
+
+    Theorem run_refines_bounded : forall orc kd cap ops t0,
+        create K V kd cap = Ok t0 -> Inv 0 t0 -> (forall k, Fun t0 k = None) ->
+        (forall i j, perm_oracle (orc i j)) -> length ops <= L ->
+        outs_match (run orc kd cap ops) (run_spec ops).
+    Proof.
+      intros orc kd cap ops t0 Hc I0 F0 PO Hl. unfold run, run_spec. rewrite Hc.
+      apply runI_from_refines; auto.
+      assert (R0 : Rel1I 0 t0 []) by (split; [auto|split; [constructor|intros; now rewrite F0]]).
+      split; exact R0.
+    Qed.
+  End GenericI.
 End Spec.
